@@ -54,7 +54,35 @@ Definition servable (p : pool) (bp : built) : Prop :=
                    = Some (filter (fun a => role_matches r (a_role a)) (all_addresses bp))
   end.
 
-(** A built pool belongs to a configured (pool section, user) and is servable for it. *)
+(** The settings the pool runs with follow the precedence the code implements:
+    pool_mode: user over pool; plugins: the pool's [plugins] table as a whole over the global
+    one; the three bb8 timeouts: user over pool over [general]; sizes and statement_timeout:
+    the user's own; and everything bb8's builder asserts holds. *)
+Definition settings_ok (c : config) (p : pool) (u : user) (bp : built) : Prop :=
+  bp_pool_mode bp = match u_pool_mode u with Some m => m | None => p_pool_mode p end /\
+  bp_plugins bp = match p_plugins p with Some x => Some x | None => g_plugins c end /\
+  bp_user_cfg bp = u /\ bp_pool_size bp = u_pool_size u /\
+  bp_auto_key bp = option_map unquote (p_auto_key p) /\
+  bp_parser bp = p_parser p /\ bp_rw_split bp = p_rw_split p /\
+  forall row b, In row (bp_databases bp) -> In b row ->
+    b_max_size b = u_pool_size u /\ b_max_size b <> 0 /\
+    b_min_idle b = u_min_pool_size u /\
+    (forall m, b_min_idle b = Some m -> m <= b_max_size b) /\
+    b_connect_timeout b = eff (u_connect_timeout u) (p_connect_timeout p) (g_connect_timeout c) /\
+    b_idle_timeout b = eff (u_idle_timeout u) (p_idle_timeout p) (g_idle_timeout c) /\
+    b_max_lifetime b = eff (u_server_lifetime u) (p_server_lifetime p) (g_server_lifetime c) /\
+    b_connect_timeout b <> 0 /\ b_idle_timeout b <> 0 /\ b_max_lifetime b <> 0.
+
+(** A built pool belongs to a configured (pool section, user), is servable for it and carries
+    that user's settings. *)
 Definition good (c : config) (bp : built) : Prop :=
   exists p ku, In p (c_pools c) /\ In ku (p_users p) /\
-               bp_db bp = p_name p /\ bp_user bp = u_name (snd ku) /\ servable p bp.
+               bp_db bp = p_name p /\ bp_user bp = u_name (snd ku) /\ servable p bp /\
+               settings_ok c p (snd ku) bp.
+
+(** The same configuration with the two TLS options removed. *)
+Definition without_tls (c : config) : config :=
+  {| g_auth_query := g_auth_query c; g_auth_user := g_auth_user c; g_auth_password := g_auth_password c;
+     g_connect_timeout := g_connect_timeout c; g_idle_timeout := g_idle_timeout c;
+     g_server_lifetime := g_server_lifetime c;
+     g_tls_cert := None; g_tls_key := None; g_plugins := g_plugins c; c_pools := c_pools c |}.
